@@ -7,9 +7,5 @@ CONSTANTS
   FIXHOPS = TRUE
   FIXOHEXP = TRUE
   XorAcc <- SymXor
-  MINLEN = 2
-  MAXLEN = 3
-  MAXSEG = 3
-  GEN = FALSE
-  BROKEN = "none"
-INVARIANTS AuthenticVerifies TamperDetectedAtOwner StepsBounded Emit
+  GEN = TRUE
+INVARIANTS ErrIsAtomic StdAgree EndsSwap ExpiryTotal Emit
